@@ -25,7 +25,8 @@ typedef struct { OggVorbis_File vf; memsrc ms; int open; long seq[64];
 extern const float *_vorbis_window_get(int n);
 static c7_handle c7h[C7_SLOTS];
 static buf_t c7_phys={0,0,0};
-static long c7_linkoff[65]; static int c7_nlinks=0;   /* byte range of every 'link' appended */
+static long c7_linkoff[65]; static int c7_nlinks=0;
+static ogg_stream_state c7_raw_os; static int c7_raw_open=0; static long c7_raw_pkno=0;   /* hand-muxed link under construction */   /* byte range of every 'link' appended */
 
 /* reference linear decode: per hs, concatenated per-link float data (channel-major per read chunk is awkward: store interleaved frames) */
 typedef struct { float *data; long frames; int ch; ogg_int64_t start; } c7_reflink;
@@ -48,13 +49,16 @@ static void c7_build_ref(int hs){
       c7_ref[hs][i].data=malloc(sizeof(float)*(size_t)(((t>>hs)+2)*c7_ref[hs][i].ch+16)); c7_ref[hs][i].frames=0;
     }
   }
+  { int errs=0;
   while((r=ov_read_float(&vf,&pcm,4096,&bs))!=0){
-    if(r<0)continue;
+    if(r<0){ if(++errs>64)break; continue; } /* a persistent error (e.g. a set-up whose decoder cannot be built) must not spin */
+    errs=0;
     if(bs>=0&&bs<c7_refn[hs]){
       c7_reflink *L=&c7_ref[hs][bs]; long j; int c;
       ogg_int64_t cap=(ov_pcm_total(&vf,bs)>>hs)+2;
       for(j=0;j<r&&L->frames<cap;j++,L->frames++) for(c=0;c<L->ch;c++) L->data[L->frames*L->ch+c]=pcm[c][j];
     }
+  }
   }
   ov_clear(&vf);
 }
@@ -67,7 +71,7 @@ static int c7_check(int hs,float **pcm,long r,int bs,ogg_int64_t pos){
   if(!c7_ref[hs]||bs<0||bs>=c7_refn[hs])return -1;
   L=&c7_ref[hs][bs]; rel=pos-L->start;
   if(rel<0)return 0;
-  if(hs){ if(rel&1)return 0; rel>>=1; }
+  if(hs)rel>>=1; /* a half-rate sample stands for two positions: after an odd-length link the linear read labels the next link's samples one higher than a seek does */
   if(rel+r>L->frames)return 0;
   for(j=0;j<r;j++){ int bad=0; for(c=0;c<L->ch;c++) if(memcmp(&L->data[(rel+j)*L->ch+c],&pcm[c][j],4))bad=1;
     if(bad){ if(c7_mis_first<0)c7_mis_first=j; c7_mis_last=j; c7_mis_n++; } }
@@ -250,6 +254,29 @@ static int c07_main(int argc,char **argv){
       rc=mk_encode(&P,&c7_phys);
       if(c7_nlinks<64){ c7_nlinks++; c7_linkoff[c7_nlinks]=c7_phys.n; }
       printf("link rc=%s bytes=%ld\n",ovname(rc),c7_phys.n);
+    }else if(!strcmp(op,"rawbegin")&&n>=5){
+      /* rawbegin <serial> <idhex> <commenthex> <setuphex>: start a hand-made link; headers paged like the reference encoder does */
+      ogg_page og; int k;
+      if(c7_raw_open)ogg_stream_clear(&c7_raw_os);
+      ogg_stream_init(&c7_raw_os,atol(tok[1])); c7_raw_open=1; c7_raw_pkno=0;
+      if(c7_nlinks<64)c7_linkoff[c7_nlinks]=c7_phys.n;
+      for(k=0;k<3;k++){ bytes_t b=unhex(tok[2+k]); ogg_packet op; memset(&op,0,sizeof op); op.packet=b.p; op.bytes=b.n; op.b_o_s=(k==0); op.granulepos=0; op.packetno=c7_raw_pkno++;
+        ogg_stream_packetin(&c7_raw_os,&op); free(b.p);
+        if(k==0) while(ogg_stream_flush(&c7_raw_os,&og)) buf_page(&c7_phys,&og); }
+      while(ogg_stream_flush(&c7_raw_os,&og)) buf_page(&c7_phys,&og);
+      printf("rawbegin bytes=%ld\n",c7_phys.n);
+    }else if(!strcmp(op,"rawpk")&&n>=5){
+      /* rawpk <hex> <granulepos> <eos> <flush> */
+      if(!c7_raw_open)printf("rawpk nolink\n"); else{
+        bytes_t b=unhex(tok[1]); ogg_packet op; ogg_page og; memset(&op,0,sizeof op); op.packet=b.p; op.bytes=b.n; op.granulepos=atoll(tok[2]); op.e_o_s=atoi(tok[3]); op.packetno=c7_raw_pkno++;
+        ogg_stream_packetin(&c7_raw_os,&op); free(b.p);
+        if(atoi(tok[4])) while(ogg_stream_flush(&c7_raw_os,&og)) buf_page(&c7_phys,&og);
+        else while(ogg_stream_pageout(&c7_raw_os,&og)) buf_page(&c7_phys,&og);
+        printf("rawpk bytes=%ld\n",c7_phys.n); }
+    }else if(!strcmp(op,"rawend")){
+      if(c7_raw_open){ ogg_page og; while(ogg_stream_flush(&c7_raw_os,&og)) buf_page(&c7_phys,&og); ogg_stream_clear(&c7_raw_os); c7_raw_open=0;
+        if(c7_nlinks<64){ c7_nlinks++; c7_linkoff[c7_nlinks]=c7_phys.n; } }
+      printf("rawend bytes=%ld\n",c7_phys.n);
     }else if(!strcmp(op,"garbage")&&n>=3){
       long k=atol(tok[1]),j; mk_rng_state=(uint32_t)atol(tok[2])|1; for(j=0;j<k;j++){ unsigned char c=mk_rand()&255; buf_add(&c7_phys,&c,1); }
       printf("garbage bytes=%ld\n",c7_phys.n);
